@@ -1,3 +1,4 @@
+import XeofsModel.Frame
 import XeofsModel.Scaler
 import XeofsProofs.Lemmas.EofModel
 import XeofsProofs.Lemmas.ScalerAlg
@@ -99,5 +100,27 @@ theorem model_cpcca_full_reconstruction {n p q : ℕ} (X : XM.Mat n p 𝕜) (Y :
 `normalized` switch of `transform` divides by the norms stored at fit -/
 theorem src_fields_not_aligned_and_fitted_norms :
     Gen.crossInverseAlignCalls = [] ∧ Gen.singleTransformNormalizedBody.head? = some "data2D = data2D / self.data['norms']" := by decide
+
+/-- **structure level (S.Frame, tied by the `frame` correspondence)**: the labelled data `inverse_transform` hands back (every value
+at its own label, in whatever order the labels come back) is projected by `transform` onto the fitted positional matrix again: the
+feature labels are looked up in the FITTED order, so `transform ∘ inverse_transform` is the identity at the structure level for
+sorted, descending and unsorted coordinates alike -/
+theorem frame_transform_of_reconstruction {α} (F : S.Frame α) (d : α) :
+    S.transformBy F.cols F.rows (S.readBack F.rows F.cols F.toMat d) = F.toMat :=
+  S.transformBy_readBack F d
+
+/-- … and the order in which the NEW data carries its feature labels is irrelevant: `transformBy` never consults it -/
+theorem frame_transform_label_order_irrelevant {α} (F : S.Frame α) (cols' : List S.Key) :
+    S.transformBy F.cols F.rows ({ F with cols := cols' } : S.Frame α).val = F.toMat := rfl
+
+/-- source obligations: `Stacker.transform` aligns the feature labels with the fitted ones by label BEFORE comparing them, and a
+Dataset is stacked in one dimension order (sample, fitted feature dimensions) whatever order its variables are stored in — the two
+facts that make the implementation's `transform` the label-based `S.transformBy` -/
+theorem src_transform_is_label_based :
+    Gen.stackerTransformSteps = ["self._validate_transform_dimensions", "self._align_feature_coords",
+      "self._validate_transform_feature_coords", "self._stack"] ∧
+    Gen.stackerAlignSelections = ["X.sel({dim: fitted.values})"] ∧
+    Gen.stackerDatasetArm = ["X = X.transpose(sample_name, *feature_dims)",
+      "X = X.to_stacked_array(new_dim=feature_name, sample_dims=(self.sample_name,))"] := by decide +kernel
 
 end C03
